@@ -787,9 +787,9 @@ impl Area for Backends {
             script(&["new", "add 0 0 1 - - 0", "add 0 1 1 - - 0", "pol 0 rr -", "hc 0 1 0 1", "hc 0 1 0 1", "sel 0 -", "sel 0 -"]),
             // WITNESS F11: two backends share an address; the connection opened on the second is closed by address
             script(&["new", "add 0 0 1 - - 0", "add 0 1 1 - - 0", "inc 0 1", "close 0 1"]),
-            // WITNESS: duplicate sticky id, first holder unhealthy, second qualifies
+            // REGRESSION (fixed: find_sticky takes the first holder that can open): duplicate sticky id, first holder unhealthy, second qualifies
             script(&["new", "add 0 0 0 0 - 0", "add 0 1 1 0 - 0", "add 0 2 2 - - 0", "pol 0 rr -", "hc 0 0 0 1", "sel 0 -", "sticky 0 0"]),
-            // WITNESS: Maglev, candidates own no table slot (weight ratio > table size): same key alternates
+            // REGRESSION (fixed: no-slot fallback is backends[key % len]): Maglev, candidates own no table slot; same key must stay pinned
             script(&["new", "add 0 0 0 - 1000000 0", "add 0 1 1 - 1 0", "add 0 2 2 - 1 0", "add 0 3 3 - 1 0", "pol 0 mag -", "sel 0 42", "hc 0 0 0 1", "hc 0 1 0 1", "sel 0 42", "sel 0 42", "sel 0 42"]),
         ]
     }
